@@ -89,7 +89,7 @@ def finish(ctx, explanation, not_decided, trusted_base, checker_cmd):
             seen_known.append(v)
         else:
             new.append(v)
-    ev_dir = os.path.join(VERIF, "evidence")
+    ev_dir = os.environ.get("WT_EVIDENCE_DIR") or os.path.join(VERIF, "evidence")
     os.makedirs(os.path.join(ev_dir, "replay"), exist_ok=True)
     for v in seen_known:
         k = known_keys[v["key"]]
